@@ -1,5 +1,6 @@
 import XcpProofs.FsDefs
 import XcpProofs.FsFrame
+import XcpProofs.NoClobberTree
 /-! # C08 — `--no-clobber` never alters anything that already exists in the destination
 
 Model slice: the walker's existence probe (`lstat` after the `fix:` commit) and `execOps`.
@@ -7,7 +8,11 @@ Model slice: the walker's existence probe (`lstat` after the `fix:` commit) and 
 operation's effect is confined to its own fresh target — every interleaving of distinct-target operations).
 Gap, stated openly: that the walker's probe (made when the entry is visited) still holds when the operation
 later executes is assumed (`FreshRun`); it can only fail when two sources map onto one target (finding F10)
-or something else creates the target meanwhile; the correspondence run checks it on every real trace. -/
+or something else creates the target meanwhile; the correspondence run checks it on every real trace.
+For ONE source tree the hypothesis is DISCHARGED (`XcpProofs/NoClobberTree.lean`): if the source's target exists nothing
+is emitted (`collision_emits_no_operation`), and if it is absent every operation of the walk executes on a target that
+does not exist at that moment — sequentially (`one_source_walk_is_a_fresh_run`) and in every interleaving of the
+concurrent model (`one_source_any_interleaving_preserves`) — so nothing that existed before is altered. -/
 namespace Xcp.C08
 
 open Xcp
@@ -82,5 +87,41 @@ example :
     let fs : Fs := ⟨root, []⟩
     fs.lexists ⟨true, [.name [68], .name [102]], false⟩ = true ∧ fs.exists ⟨true, [.name [68], .name [102]], false⟩ = false := by
   decide
+
+/-- `FreshRun` DISCHARGED for one source tree: the operations the walker emits under no-clobber for any copyable tree
+and an absent plain target are each executed when their target does not exist; hence the whole run (and every prefix)
+alters no entry that existed before, anywhere -/
+theorem one_source_walk_is_a_fresh_run (fs : Fs) (c : Cfg) (hd : c.dereference = false) (hn : c.noClobber = true)
+    (src tb : RPath) (srcNode : Node) (fuel : Nat)
+    (hwf : FsEq fs fs) (hroot : fs.root.isDir = true)
+    (hsrc : PlainTarget fs src) (hsn : fs.root.getAt src.names = some srcNode)
+    (hcop : srcNode.Copyable fuel)
+    (htb : PlainTarget fs tb) (hne : tb.names ≠ []) (habs : fs.root.getAt tb.names = none)
+    (hpar : ∃ es, fs.root.getAt tb.names.dropLast = some (.dir es))
+    (hun1 : ¬ src.names <+: tb.names) (hun2 : ¬ tb.names <+: src.names)
+    (hlen : src.names.length + fuel < 200 ∧ tb.names.length + fuel < 200) :
+    FreshRun fs c (walkEntry fs c none src tb (fuel + 1) [] []) ∧
+    Preserved fs.root (execOps fs c (walkEntry fs c none src tb (fuel + 1) [] [])).fs.root :=
+  ⟨noclobber_walk_is_fresh_run fs c hd hn src tb srcNode fuel hwf hroot hsrc hsn hcop htb hne habs hpar hun1 hun2 hlen,
+   noclobber_tree_preserves fs c hd hn src tb srcNode fuel hwf hroot hsrc hsn hcop htb hne habs hpar hun1 hun2 hlen⟩
+
+/-- … and in EVERY reachable state of the concurrent model (any interleaving of the walker with the completions of queued
+operations, any worker count, either driver): every entry that existed initially is kept, and whichever operation
+completes next, or whichever directory the walker creates next, has a target that does not exist at that moment -/
+theorem one_source_any_interleaving_preserves (fs : Fs) (c : Cfg) (hd : c.dereference = false) (hn : c.noClobber = true)
+    (src tb : RPath) (srcNode : Node) (fuel : Nat)
+    (hwf : FsEq fs fs) (hroot : fs.root.isDir = true)
+    (hsrc : PlainTarget fs src) (hsn : fs.root.getAt src.names = some srcNode)
+    (hcop : srcNode.Copyable fuel)
+    (htb : PlainTarget fs tb) (hne : tb.names ≠ []) (habs : fs.root.getAt tb.names = none)
+    (hpar : ∃ es, fs.root.getAt tb.names.dropLast = some (.dir es))
+    (hun1 : ¬ src.names <+: tb.names) (hun2 : ¬ tb.names <+: src.names)
+    (hlen : src.names.length + fuel < 200 ∧ tb.names.length + fuel < 200)
+    (ls : List L0.Label) (s : L0.St)
+    (hrun : L0.run c (L0.init fs (walkEntry fs c none src tb (fuel + 1) [] [])) ls = some s) :
+    Preserved fs.root s.fs.root ∧
+    (∀ op ∈ s.queue, ∀ t, opTarget op = some t → s.fs.lexists t = false) ∧
+    (∀ op r, s.todo = op :: r → ∀ t, opTarget op = some t → s.fs.lexists t = false) :=
+  noclobber_tree_any_interleaving fs c hd hn src tb srcNode fuel hwf hroot hsrc hsn hcop htb hne habs hpar hun1 hun2 hlen ls s hrun
 
 end Xcp.C08
